@@ -5,7 +5,7 @@ from ..fsm import state_outcomes, atom_of
 from ..gf2 import Vars, forms, NotAffine
 
 TITLE = 'UART 8N1 framing'
-FLOOR = 60
+FLOOR = 200
 DECIDES = ('For the symbolic divisor (all divisors at once) and for concrete divisors (1, 2, 5, 16; more when thorough): '
            '(a) tx is bit 0 of a registered shift register in exactly one state and the constant 1 (or its reset value 1) '
            'in every other state; every value written to that register is either the frame {0, payload[0..7] in order, 1} '
@@ -128,8 +128,24 @@ def _forms(ctx, e, vs, what):
         ctx.need(False, '%s is not a Cat/slice/constant network: %s' % (what, ex))
 
 
+def _try_forms(e, vs):
+    try:
+        return forms(e, vs)
+    except NotAffine:
+        return []
+
+
 def _fit(f, w):
     return (list(f) + [0] * w)[:w]
+
+
+def _find_reg(ctx, ir, fsm, src):
+    """The register that latches the stream payload: the only signal written in the FSM clock domain from `src`."""
+    names = sorted({a.lhs.canon() for a in ir.assigns if a.domain == fsm.domain and isinstance(a.lhs, E) and
+                    a.lhs.op == 'sig' and isinstance(a.rhs, E) and src in a.rhs.sigs()})
+    ctx.need(len(names) == 1, 'the single register that latches %s in %s (found %s)' % (src, ir.clsname, names))
+    ctx.need(names[0] in ir.signals and ir.signals[names[0]].w, 'width of the register %s' % names[0])
+    return names[0]
 
 
 def effective(ir, fsm, sig, state, g):
@@ -155,9 +171,9 @@ def serializer(ctx, C, tag, ir, fsm, reg, tick, unit, nunits, want_load, src, rd
     drv = ir.drivers(reg, exact=True)
     ctx.need(drv, 'writers of the shift register %s' % reg)
     ctx.ob('C49.registered', K(what + '-shifter.domain'),
-           all(a.domain == fsm.domain and a.state is not None for a in drv), drv[0].loc,
+           all(a.domain == fsm.domain for a in drv), drv[0].loc,
            'the %s shifter %s must be a register written in the FSM clock domain (the line shows latched data, not the '
-           'live input): %s' % (what, reg, [q.fmt(a) for a in drv if a.domain != fsm.domain or a.state is None]))
+           'live input): %s' % (what, reg, [q.fmt(a) for a in drv if a.domain != fsm.domain]))
     loads = [a for a in drv if isinstance(a.rhs, E) and src in a.rhs.sigs()]
     shifts = [a for a in drv if isinstance(a.rhs, E) and a.rhs.sigs() == {reg}]
     other = [a for a in drv if a not in loads and a not in shifts]
@@ -307,19 +323,18 @@ def check_uart(ctx, d):
     txd = ir.drivers(TX, exact=True)
     ctx.need(txd, 'drivers of tx')
     data = [a for a in txd if isinstance(a.rhs, E) and a.rhs.sigs()]
-    ctx.need(len(data) == 1 and data[0].state is not None and len(data[0].rhs.sigs()) == 1,
+    ctx.need(len(data) == 1 and data[0].state is not None,
              'the single tx assignment that shows the shift register (found %s)' % [q.fmt(a) for a in data])
     t = data[0]
-    reg = next(iter(t.rhs.sigs()))
+    reg = _find_reg(ctx, ir, fsm, PAY)
     send_tx = q.state_of(t)
-    ctx.need(reg in ir.signals and ir.signals[reg].w, 'the shift register read by tx')
     vs = Vars()
     rv = vs.vec(reg, ir.signals[reg].w)
-    got = _forms(ctx, t.rhs, vs, 'tx source')
+    got = _try_forms(t.rhs, vs)
     over = [a for a in txd if a is not t and (a.state is None or a.state == t.state) and a.order > t.order]
     ctx.ob('C49.tx-lsb-first', K('tx@send'), t.domain == 'comb' and not t.guard and got[:1] == rv[:1] and not over, t.loc,
            'in the shifting state tx must unconditionally be bit 0 of the shift register (LSB first), not overridden: '
-           'tx <= %s if %s; later: %s' % (t.rhs.canon(), _show(norm(t)), [q.fmt(a) for a in over]))
+           'tx <= %s if %s (register: %s); later: %s' % (t.rhs.canon(), _show(norm(t)), reg, [q.fmt(a) for a in over]))
     ti = ir.signals[TX]
     for s in fsm.states:
         if s == send_tx:
@@ -410,7 +425,7 @@ def check_multibyte(ctx, bw, d):
     idle = fsm.init
     subs = [s for s in ir.submodules if s.obj.clsname == 'UARTTransmitter']
     ctx.need(len(subs) == 1, 'the inner UARTTransmitter of %s' % C)
-    u = subs[0].obj.path if subs[0].obj.path in ('uart',) or (subs[0].obj.path + '.tx') in ir.signals else subs[0].name
+    u = subs[0].name if (subs[0].name + '.tx') in ir.signals else subs[0].obj.path
     ctx.need((u + '.tx') in ir.signals, 'ports of the inner UART (%s.tx)' % u)
     dv = subs[0].obj.kwargs.get('divisor')
     dtxt = _val(dv) if isinstance(dv, E) else dv
@@ -427,18 +442,17 @@ def check_multibyte(ctx, bw, d):
     ctx.ob('C49.mb-tx-through', K('tx'), ok, txd[0].loc if txd else None,
            'tx must be the inner UART tx at all times: %s' % [q.fmt(a) for a in txd])
     pd = ir.drivers(UP, exact=True)
-    ctx.need(len(pd) == 1 and isinstance(pd[0].rhs, E) and len(pd[0].rhs.sigs()) == 1,
+    ctx.need(len(pd) == 1 and isinstance(pd[0].rhs, E),
              'the single assignment of the inner UART payload (found %s)' % [q.fmt(a) for a in pd])
     p = pd[0]
-    reg = next(iter(p.rhs.sigs()))
-    ctx.need(reg in ir.signals and ir.signals[reg].w, 'the word shifter read by the inner UART payload')
+    reg = _find_reg(ctx, ir, fsm, PAY)
     vs = Vars()
     rv = vs.vec(reg, ir.signals[reg].w)
-    got = _forms(ctx, p.rhs, vs, 'inner UART payload')
+    got = _try_forms(p.rhs, vs)
     ctx.ob('C49.mb-low-byte-first', K('uart.payload'),
            p.domain == 'comb' and not p.guard and p.state is None and _fit(got, 8) == _fit(rv[0:8], 8) and len(got) >= min(8, len(rv)),
            p.loc, 'the inner UART must always be given bits 0..7 of the word shifter (little-endian byte order): '
-           '%s <= %s' % (UP, p.rhs.canon()))
+           '%s <= %s (word shifter: %s)' % (UP, p.rhs.canon(), reg))
 
     def word(v):
         return v.vec(PAY, 8 * bw)
